@@ -6,7 +6,7 @@
   Same conventions as Props/C04Shapes.lean (`hyps`, `breaks`).  All these shapes are cases of
   `WfTie.shapeOf`, so `wf_tie_sound` covers them.
 
-  Not covered: `rearrange_dim`, `unroll_buffer`, `inline`.
+  Not covered: `unroll_buffer`, `inline`.
 -/
 import ExoModel.Props.C04Shapes
 
@@ -94,6 +94,36 @@ example : (wfL Γ0 [.pass, .loop sI (num 0) (rd sN) [.pass, .ite (.binop .gt (rd
       [.loop sI (num 0) (rd sN) [.ite (.binop .gt (rd sN) (num 0)) [.pass] []] false] = true := by
   decide +kernel
 
+/-! ### reuse_buffer -/
+
+/-- hypotheses: the kept buffer is in scope at the replaced allocation with the same rank; the rest
+    of the block has no `stride(y, _)` (not renamed by the real code), no later extent mentioning
+    `y`, no `free y` -/
+theorem reuse_buffer_wf_anywhere (x : Sym) (fill : Bool) (path : Path) (Γ Γs : Env)
+    (body body' site : List Stmt) (h : rewriteAt (reuseBuffer x fill) path body = some body')
+    (hw : (wfL Γ body).isSome = true) (hs : siteAt path Γ body = some (Γs, site))
+    (hok : reuseBufferOk Γs x site = true) : (wfL Γ body').isSome = true :=
+  shape_wf_anywhere _ (fun Γ => reuseBufferOk Γ x)
+    (fun Γ ss r hr ho hw => reuseBuffer_local x fill Γ ss r hr ho hw) path Γ Γs body body' site h hw hs hok
+
+/-- `x : f32[8]; x[0] = 1.0; for i: (t : f32[8]; t[i] = x[0]; w = t[0:4]; y[i] = w[1])` -/
+def reuseBody : List Stmt :=
+  [.alloc sX [num 8], .assign sX [num 0] one,
+   .loop sI (num 0) (rd sN)
+     [.alloc sT [num 8], .assign sT [rd sI] (.read sX [num 0]),
+      .window sW (.win sT [.interval (num 0) (num 4)]), .assign sY [rd sI] (.read sW [num 1])] false]
+
+example : hyps (reuseBuffer sX true) (fun Γ => reuseBufferOk Γ sX) [.body 2, .body 0] Γ0 reuseBody = true := by
+  decide
+/-- needed: `stride(t, 0)` keeps the dead name -/
+example : breaks (reuseBuffer sX true) [.body 1, .body 0] Γ0
+    [.alloc sX [num 8], .loop sI (num 0) (rd sN)
+      [.alloc sT [num 8], .assign sY [.stride sT 0] one] false] = true := by decide
+/-- needed: the kept buffer has another rank -/
+example : breaks (reuseBuffer sX true) [.body 1, .body 0] Γ0
+    [.alloc sX [num 8, num 2], .loop sI (num 0) (rd sN)
+      [.alloc sT [num 8], .assign sT [rd sI] one] false] = true := by decide
+
 /-! ### bind_expr -/
 
 /-- hypotheses: the new name is fresh and not bound later in the block, the bound expression is a
@@ -163,6 +193,15 @@ theorem resize_dim_wf_anywhere (d : Nat) (size off : Expr) (path : Path) (Γ Γs
   shape_wf_anywhere _ (fun Γ => resizeDimOk Γ size off)
     (fun Γ ss r hr ho hw => resizeDim_local d size off Γ ss r hr ho hw) path Γ Γs body body' site h hw hs hok
 
+/-- hypotheses: `perm` is a permutation of the dimensions, plus the re-indexing side conditions
+    (a permutation keeps the number of intervals of a coordinate list: `accRank_perm`) -/
+theorem rearrange_dim_wf_anywhere (perm : List Nat) (path : Path) (Γ Γs : Env)
+    (body body' site : List Stmt) (h : rewriteAt (rearrangeDim perm) path body = some body')
+    (hw : (wfL Γ body).isSome = true) (hs : siteAt path Γ body = some (Γs, site))
+    (hok : rearrangeDimOk perm site = true) : (wfL Γ body').isSome = true :=
+  shape_wf_anywhere _ (fun _ => rearrangeDimOk perm)
+    (fun Γ ss r hr ho hw => rearrangeDim_local perm Γ ss r hr ho hw) path Γ Γs body body' site h hw hs hok
+
 /-- `for i: (t : f32[8, 4]; t[i, 2] = 1.0; w = t[0:8, 1]; y[i] = t[i, 0] + w[3])` -/
 def dimBody : List Stmt :=
   [.loop sI (num 0) (rd sN)
@@ -183,6 +222,9 @@ example : hyps (divideDim 0 4) (fun _ => divideDimOk) [.body 0, .body 0] Γ0 dim
 example : hyps (multDim 0 1) (fun _ => multDimOk) [.body 0, .body 0] Γ0 dimBody = true := by decide
 example : hyps (resizeDim 0 (num 6) (num 2)) (fun Γ => resizeDimOk Γ (num 6) (num 2)) [.body 0, .body 0] Γ0
     dimBodyW = true := by decide
+
+example : hyps (rearrangeDim [1, 0]) (fun _ => rearrangeDimOk [1, 0]) [.body 0, .body 0] Γ0 dimBodyW = true := by
+  decide
 
 /-- needed — RANK CONSISTENCY OF `stride` (the recorded stride findings): `mult_dim` lowers the
     rank to 1 and does not touch `stride(t, 1)` -/
@@ -267,6 +309,86 @@ example : hyps (rewriteExprWith (.assign sY [rd sI] (.binop .add one (.read sA [
 /-- needed: the new expression mentions a name that is not in scope -/
 example : breaks (rewriteExprWith (.assign sY [rd sI] (.read sA [rd sJ]))) [.body 0, .body 0] Γ0
     dataBody = true := by decide
+
+/-! ### commute_expr, left_reassociate_expr, divide_with_recompute -/
+
+/-- no hypothesis: the new right-hand side has the same leaves -/
+theorem commute_expr_wf_anywhere (s' : Stmt) (path : Path) (Γ Γs : Env) (body body' site : List Stmt)
+    (h : rewriteAt (commuteExprWith s') path body = some body') (hw : (wfL Γ body).isSome = true)
+    (hs : siteAt path Γ body = some (Γs, site)) : (wfL Γ body').isSome = true :=
+  shape_wf_anywhere _ WfTie.always (fun Γ ss r hr _ hw => commuteExpr_local s' Γ ss r hr hw)
+    path Γ Γs body body' site h hw hs rfl
+
+theorem left_reassociate_expr_wf_anywhere (s' : Stmt) (path : Path) (Γ Γs : Env)
+    (body body' site : List Stmt) (h : rewriteAt (reassocExprWith s') path body = some body')
+    (hw : (wfL Γ body).isSome = true) (hs : siteAt path Γ body = some (Γs, site)) :
+    (wfL Γ body').isSome = true :=
+  shape_wf_anywhere _ WfTie.always (fun Γ ss r hr _ hw => reassocExpr_local s' Γ ss r hr hw)
+    path Γ Γs body body' site h hw hs rfl
+
+example : hyps (commuteExprWith (.assign sY [rd sI] (.binop .add one (.read sA [rd sI]))))
+    WfTie.always [.body 0, .body 0] Γ0 dataBody = true := by decide +kernel
+example : hyps (reassocExprWith (.assign sY [rd sI]
+      (.binop .add (.binop .add (.read sA [rd sI]) one) one))) WfTie.always [.body 0, .body 0] Γ0
+    [.loop sI (num 0) (rd sN)
+      [.assign sY [rd sI] (.binop .add (.read sA [rd sI]) (.binop .add one one))] false] = true := by
+  decide +kernel
+
+/-- hypotheses: `io`, `ii` fresh, distinct, not bound in the body; the outer bound is a
+    well-formed control expression at the loop -/
+theorem divide_with_recompute_wf_anywhere (io ii : Sym) (ohi : Expr) (q : Int) (path : Path)
+    (Γ Γs : Env) (body body' site : List Stmt)
+    (h : rewriteAt (divideWithRecompute io ii ohi q) path body = some body')
+    (hw : (wfL Γ body).isSome = true) (hs : siteAt path Γ body = some (Γs, site))
+    (hok : divideRecomputeOk Γs io ii ohi site = true) : (wfL Γ body').isSome = true :=
+  shape_wf_anywhere _ (fun Γ => divideRecomputeOk Γ io ii ohi)
+    (fun Γ ss r hr ho hw => divideWithRecompute_local io ii ohi q Γ ss r hr ho hw)
+    path Γ Γs body body' site h hw hs hok
+
+example : hyps (divideWithRecompute sIo sIi (.binop .div (rd sN) (num 4)) 4)
+    (fun Γ => divideRecomputeOk Γ sIo sIi (.binop .div (rd sN) (num 4))) [.body 0, .body 0] Γ0
+    divBody = true := by decide
+example : breaks (divideWithRecompute sIo sIi (rd sI) 4) [.body 0, .body 0] Γ0 divBody = true := by decide
+
+/-! ### stage_mem -/
+
+/-- hypotheses: the staging buffer's name is new and the window bounds are well formed at the site
+    (the extents `hi - lo`); each copy nest is fine where it is put (as many fresh, distinct
+    iterators as extents, innermost statement well formed under them); the staged block (read off
+    the output) is well formed with the staging buffer in scope and the statements after it are
+    well formed in the environment it leaves -/
+theorem stage_mem_wf_anywhere (x xs : Sym) (w : List WAcc) (n : Nat) (iters : List Sym)
+    (accum load store : Bool) (gl gs : Option Expr) (B' : List Stmt) (path : Path) (Γ Γs : Env)
+    (body body' site : List Stmt)
+    (h : rewriteAt (stageMem x xs w n iters accum load store gl gs B') path body = some body')
+    (hw : (wfL Γ body).isSome = true) (hs : siteAt path Γ body = some (Γs, site))
+    (hok : stageMemOk Γs x xs w n iters accum load store gl gs B' site = true) :
+    (wfL Γ body').isSome = true :=
+  shape_wf_anywhere _ (fun Γ => stageMemOk Γ x xs w n iters accum load store gl gs B')
+    (fun Γ ss r hr ho hw => stageMem_local x xs w n iters accum load store gl gs B' Γ ss r hr ho hw)
+    path Γ Γs body body' site h hw hs hok
+
+/-- the copy nests: `loopNest` over fresh distinct iterators, with well-formed extents and a
+    well-formed innermost statement, is well formed and defines nothing -/
+theorem copy_nest_wf (Γ' : Env) (iters : List Sym) (ns : List Expr) (inner : List Stmt)
+    (hok : nestOk Γ' iters ns inner = true) (hd : defNames inner = []) :
+    wfL Γ' (loopNest iters ns inner) = some Γ' := nest_exact hok hd
+
+/-- `for i: (y[0] = a[2] + a[3]; pass)`, the window `a[2:4]` staged into `x` around the assignment -/
+def stW : List WAcc := [.interval (num 2) (num 4)]
+def stBlock : List Stmt := [.assign sY [num 0] (.binop .add (.read sA [num 2]) (.read sA [num 3]))]
+def stBody : List Stmt := [.loop sI (num 0) (rd sN) (stBlock ++ [.pass]) false]
+
+example : hyps (stageMem sA sX stW 1 [sK] false true false none none (stageL sA sX stW stBlock))
+    (fun Γ => stageMemOk Γ sA sX stW 1 [sK] false true false none none (stageL sA sX stW stBlock))
+    [.body 0, .body 0] Γ0 stBody = true := by decide +kernel
+/-- needed: a window bound that is not in scope at the site -/
+example : breaks (stageMem sA sX [.interval (rd sJ) (num 4)] 1 [sK] false true false none none
+      (stageL sA sX [.interval (rd sJ) (num 4)] stBlock)) [.body 0, .body 0] Γ0 stBody = true := by
+  decide +kernel
+/-- needed: the staging buffer's name is already in scope -/
+example : breaks (stageMem sA sN stW 1 [sK] false true false none none (stageL sA sN stW stBlock))
+    [.body 0, .body 0] Γ0 stBody = true := by decide +kernel
 
 /-! ### extract_subproc -/
 
